@@ -128,6 +128,7 @@ FuncExprs ==
   \cup { Call1(f, x) : f \in {"str", "strlen", "int", "float", "is_int", "is_float"}, x \in Ints \cup Flts \cup {Call1("int", AVal), Call1("strlen", AKey)} }
   \cup { Call2("split", x, AStr(sep)) : x \in TArgs \cup RowT, sep \in {Comma, <<32>>, <<98>>, <<44, 98>>} }
   \cup { Call1("len", Call2("split", x, AStr(Comma))) : x \in TArgs \cup RowT }
+  \cup { Call1("len", x) : x \in {AStr(<<>>), AStr(abc), AKey, AVal} }
   \cup { AIdx(Call2("split", x, AStr(Comma)), AInt(n)) : x \in {AStr(<<97, 44, 98, 44, 99>>), AVal}, n \in {0, 1, 2} }
   \cup { ACall("join", <<AStr(sep), x, y>>) : sep \in {Comma, <<>>, <<45, 45>>}, x \in {AStr(a), AKey, AInt(7)}, y \in {AStr(<<>>), AVal, AInt(12)} }
   \cup { ACall("join", <<AStr(Comma), AIdx(SplitV, AInt(0)), AIdx(SplitV, AInt(1)), AIdx(SplitV, AInt(2))>>) }
@@ -163,8 +164,10 @@ JV == Call1("json", AVal)
 JsonExprs == { JV, AIdx(JV, AStr(a)), AIdx(JV, AStr(bb)), AIdx(JV, AStr(<<108>>)), AIdx(AIdx(JV, AStr(<<108>>)), AInt(1)), AIdx(AIdx(JV, AStr(<<108>>)), AInt(0)),
                AIdx(AIdx(JV, AStr(<<111>>)), AStr(<<112>>)), AIdx(AIdx(AIdx(JV, AStr(<<111>>)), AStr(<<112>>)), AStr(<<122>>)), AIdx(JV, AStr(<<111>>)),
                AIdx(AIdx(AIdx(JV, AStr(<<108>>)), AInt(1)), AStr(a)) }
+JsonTypeExprs == { Call1("is_int", AIdx(JV, AStr(a))), Call1("is_float", AIdx(JV, AStr(a))), Call1("is_int", AIdx(JV, AStr(bb))), Call1("is_float", AIdx(JV, AStr(<<108>>))),
+                   Call1("str", AIdx(JV, AStr(a))), Call1("strlen", AIdx(JV, AStr(bb))) }
 JKeys == {<<106, 49>>, <<106, 50>>, <<106, 51>>, <<106, 52>>, <<106, 53>>, <<106, 54>>, <<106, 55>>, <<106, 56>>, <<106, 57>>}
-C10Json == { [st |-> Select(<<F(AKey, ""), F(e, "")>>, ABin("^=", AKey, AStr(<<106>>)), <<>>, <<>>, NoLim), sid |-> "J"] : e \in JsonExprs }
+C10Json == { [st |-> Select(<<F(AKey, ""), F(e, "")>>, ABin("^=", AKey, AStr(<<106>>)), <<>>, <<>>, NoLim), sid |-> "J"] : e \in JsonExprs \cup JsonTypeExprs }
            \cup { [st |-> Select(<<F(AKey, ""), F(e, "")>>, ABin("=", AKey, AStr(k)), <<>>, <<>>, NoLim), sid |-> "J"] : e \in JsonExprs, k \in JKeys }
            \cup { [st |-> Select(<<>>, w, <<>>, <<>>, NoLim), sid |-> "J"] :
                      w \in { ABin("=", AIdx(JV, AStr(bb)), AStr(<<120>>)), ABin("^=", AIdx(AIdx(JV, AStr(<<111>>)), AStr(<<112>>)), AStr(<<113>>)) } }
@@ -201,7 +204,7 @@ StoreV == << SP(a, <<97, 44, 98, 44, 99>>), SP(ab, <<49, 44, 50, 44, 50>>), SP(a
 
 KPool == IF Scale >= 2 THEN { AInt(0), AInt(1), AInt(2), AInt(3), AFlt(1, 1), AFlt(3, 1), AFlt(2, 0) }
          ELSE { AInt(1), AInt(2), AInt(3), AFlt(1, 1), AFlt(3, 1), AFlt(2, 0) }
-KSmall == { AInt(2), AInt(3), AFlt(1, 1), AFlt(2, 0) }
+KSmall == { AInt(2), AInt(3), AFlt(1, 1), AFlt(2, 0), AInt(1), AFlt(1, 0) }        \* 1 and 1.0: neutral, but 1.0 still makes the result a float
 Ar == {"+", "-", "*", "/"}
 K1 == { ABin(op, x, y) : op \in Ar, x \in KPool, y \in KPool }
 K2 == { ABin(op2, ABin(op1, x, y), z) : op1 \in Ar, op2 \in Ar, x \in KSmall, y \in KSmall, z \in KSmall }
@@ -214,12 +217,16 @@ Reassoc == { ABin(op2, ABin(op1, x, y), z) : op1 \in Ar, op2 \in Ar, x \in RowNu
 KStr == { ABin("+", AStr(a), AStr(bb)), ABin("+", ABin("+", AKey, AStr(a)), AStr(bb)), ABin("+", AStr(a), ABin("+", AStr(bb), AKey)), Call1("upper", ABin("+", AStr(a), AStr(bb))),
           Call1("strlen", AStr(abc)), ABin("+", Call1("strlen", AStr(abc)), Call1("int", AVal)), Call1("str", ABin("+", AInt(1), AInt(2))), Call1("int", AStr(<<52, 50>>)),
           Call1("float", AStr(<<49, 46, 53>>)), ABin("*", Call1("float", AStr(<<49, 46, 53>>)), AInt(2)), Call1("lower", Call1("upper", AStr(a))),
-          ACall("join", <<AStr(Comma), AStr(a), AInt(1)>>), Call1("len", L123), Call1("is_int", AStr(<<49>>)) }
+          ACall("join", <<AStr(Comma), AStr(a), AInt(1)>>), Call1("len", L123), Call1("is_int", AStr(<<49>>)),
+          \* a folded call whose value needs more than six decimals (1/128), alone and inside arithmetic and comparisons
+          Call1("float", AStr(<<48,46,48,48,55,56,49,50,53>>)), ABin("*", Call1("float", AStr(<<48,46,48,48,55,56,49,50,53>>)), AInt(128)),
+          ABin("+", Call1("float", AVal), Call1("float", AStr(<<48,46,48,48,55,56,49,50,53>>))), ABin("=", ABin("*", Call1("float", AStr(<<48,46,48,48,55,56,49,50,53>>)), AInt(128)), AInt(1)) }
 C04Fields == { [st |-> Select(<<F(AKey, ""), F(e, "")>>, All, <<>>, <<>>, NoLim), sid |-> "F"] : e \in K1 \cup K2 \cup Reassoc \cup KStr }
 CT == ABin("=", AInt(1), AInt(1))
 CF == ABin(">", AInt(1), AInt(2))
 PK == ABin("^=", AKey, AStr(a))
-BoolSimp == { ABin(op, x, y) : op \in {"&", "|"}, x \in {CT, CF, PK}, y \in {CT, CF, PK} }
+BoolSimp == { ABin(op, x, y) : op \in {"&", "|", "and", "or"}, x \in {CT, CF, PK}, y \in {CT, CF, PK} }
+            \cup { ABin(op, ABin(">=", Call1("float", AVal), AFlt(3, 1)), c) : op \in {"&", "|", "and", "or"}, c \in {CT, CF} }
             \cup { ABin("&", ABin("|", CF, PK), CT), ABin("|", ABin("&", CT, PK), CF), ANot(CT), ABin("&", ANot(CF), PK),
                    ABin("=", ABin("+", AStr(a), AStr(bb)), AKey), ABin("<", Call1("strlen", AKey), ABin("+", AInt(1), AInt(1))) }
 C04Preds == { [st |-> Select(<<>>, ABin(op, l, k), <<>>, <<>>, NoLim), sid |-> "F"] : op \in {">", "=", "<="}, l \in {Call1("float", AVal)}, k \in K1 }
@@ -286,7 +293,11 @@ C07BoolKey == { [st |-> Select(<<F(Call1("is_int", AVal), "b"), F(Call1("count",
               \cup { [st |-> Select(<<F(AKey, ""), F(Call1("is_int", AVal), "b"), F(Call1("count", AInt(1)), "c")>>, All, ov, <<1, 2>>, NoLim), sid |-> "O"] :
                        ov \in { <<O(2, FALSE), O(1, FALSE)>>, <<O(2, TRUE), O(1, FALSE)>>, <<O(2, FALSE), O(1, TRUE)>> } }
 C07Big == { [st |-> Select(<<F(AKey, ""), F(Call1("int", AVal), "n")>>, ABin("!=", AKey, AStr(<<122>>)), ov, <<>>, NoLim), sid |-> "B"] : ov \in { <<O(2, FALSE)>>, <<O(2, TRUE)>>, <<O(2, TRUE), O(1, FALSE)>> } }
-C07Cases == C07Plain \cup C07Aggr \cup C07Mixed \cup C07Pt \cup C07BoolKey \cup C07Big
+C07Ties == { [st |-> Select(<<>>, All, ov, <<>>, NoLim), sid |-> sid] : ov \in { <<O(2, FALSE), O(1, FALSE)>>, <<O(2, TRUE), O(1, FALSE)>>, <<O(2, FALSE), O(1, TRUE)>> }, sid \in {"S40", "S7"} }
+           \cup { [st |-> Select(<<F(AKey, ""), F(Call1("int", AVal), "n")>>, All, <<O(2, d), O(1, FALSE)>>, <<>>, NoLim), sid |-> "S40"] : d \in BOOLEAN }
+C07Names == { [st |-> Select(<<F(AKey, "id"), F(AVal, "ID"), F(Call1("strlen", AVal), "Id")>>, All, ov, <<>>, NoLim), sid |-> "O"] :
+                ov \in { <<O(2, FALSE)>>, <<O(2, TRUE)>>, <<O(3, FALSE), O(1, TRUE)>>, <<O(1, TRUE)>> } }
+C07Cases == C07Ties \cup C07Names \cup C07Plain \cup C07Aggr \cup C07Mixed \cup C07Pt \cup C07BoolKey \cup C07Big
 
 -----------------------------------------------------------------------------
 (* c09: GROUP BY and aggregates *)
@@ -379,13 +390,16 @@ C05Stmts == {
   Select(<<F(AKey, ""), NV, UV>>, ABin("&", ABin(">", AName("n"), AInt(0)), ABin("!=", AName("u"), AStr(<<55>>))), <<>>, <<>>, Lim(1, 4))
 }
 KA == AName("k")
+C05LitLeft == { Select(<<F(AKey, "k"), NV>>, w, <<>>, <<>>, NoLim) :
+                  w \in { ABin(">", AStr(c1), KA), ABin("<=", AStr(ab), KA), ABin("&", ABin("<", AStr(a), KA), ABin(">=", AStr(c2), KA)), ABin("=", AStr(bb), KA), ABin("^=", KA, AStr(a)),
+                          ABetween(KA, AStr(ab), AStr(c1)), AIn(KA, <<AStr(a), AStr(dd)>>) } }
 C05Multi == {
   Select(<<F(AKey, "k"), F(AVal, "v")>>, ABin("&", ABin("&", ABin(">", KA, AStr(a)), ABin("<", KA, AStr(c2))), ABin("!=", Call1("upper", KA), AStr(<<65, 66>>))), <<>>, <<>>, NoLim),
   Select(<<F(AKey, "k"), F(AVal, "v")>>, ABin("&", ABin("&", ABin(">", KA, AStr(a)), ABin("<", KA, AStr(c2))), ABin("!=", KA, AStr(abc))), <<>>, <<>>, NoLim),
   Select(<<F(AKey, "k"), NV>>, ABin("&", ABin("&", ABin(">", AName("n"), AInt(0)), ABin("<", ABin("+", AName("n"), AInt(1)), AInt(9))), ABin("!=", ABin("*", AName("n"), AInt(2)), AInt(4))), <<>>, <<>>, NoLim),
   Select(<<F(AKey, "k"), F(Call1("sum", Call1("strlen", KA)), "s"), F(Call2("group_concat", Call1("upper", KA), AStr(<<44>>)), "g")>>, ABin("!=", KA, AStr(ab)), <<>>, <<1>>, NoLim),
   Select(<<F(AVal, "v"), F(Call1("sum", Call1("strlen", AName("v"))), "s"), F(Call1("count", AInt(1)), "c")>>, ABin("^=", AName("v"), AStr(<<>>)), <<>>, <<1>>, NoLim) }
-C05Cases == { [st |-> st, sid |-> sid] : st \in C05Stmts \cup C05Multi, sid \in {"I", "S7", "S40", "E"} } \cup C05Pt
+C05Cases == { [st |-> st, sid |-> sid] : st \in C05Stmts \cup C05Multi \cup C05LitLeft, sid \in {"I", "S7", "S40", "E"} } \cup C05Pt
 
 -----------------------------------------------------------------------------
 (* c05k: the cases of the KvCache design model as real statements.  Rows k1..kn with value i; the key condition K
